@@ -630,6 +630,45 @@ func genCloneBig(g *tr.G, n, β int, pat byte) {
 	b.emit("big-clone-divergent", sizeTag(n), "big-order-"+string(pat))
 }
 
+// genDeleteRebuild: the delete-side rebuild of a big tree.  The peak n is chosen so that the threshold
+// (n*β+1000)/2000 is thr: the tree is grown to n, drained by Remove until the rebuild fires with about
+// thr keys left, drained a little further, and regrown adversarially.
+func genDeleteRebuild(g *tr.G, thr, β int, pat byte) {
+	r := g.R
+	n := (thr*2000 - 1000 + β - 1) / β // the smallest peak whose threshold is thr
+	if n < thr+2 || n > 8192 {
+		return
+	}
+	if n > 4200 && !g.Thorough() {
+		pat = 'r'
+	}
+	b := newBig(g, β)
+	t := b.New()
+	lo := r.Range(-n, 5)
+	b.op('A', t, ks{pat: pat, lo: lo, step: 2, n: n, rep: 1, take: n, seed: r.Intn(1 << 30)})
+	dpat := tr.Pick(r, []byte{'a', 'd', 'z', 'i', 'r'})
+	seed := r.Intn(1 << 30)
+	// down to thr+1 keys, then the three removals around the threshold one macro each, then further
+	b.op('D', t, ks{pat: dpat, lo: lo, step: 2, n: n, rep: 1, take: n - thr - 1, seed: seed})
+	idx := orderIdx(dpat, n, seed)
+	var next []int
+	for _, j := range idx[n-thr-1 : min(n, n-thr+2)] {
+		next = append(next, lo+2*j)
+	}
+	b.op('D', t, ks{pat: 'e', list: next})
+	b.op('G', t, seqOf('a', lo, 2, n))
+	var more []int
+	for _, j := range idx[min(n, n-thr+2):min(n, n-thr+2+thr/3)] {
+		more = append(more, lo+2*j)
+	}
+	if len(more) > 0 && len(more) <= 400 {
+		b.op('D', t, ks{pat: 'e', list: more})
+	}
+	b.op('A', t, seqOf(tr.Pick(r, []byte{'a', 'z'}), lo+2*n, 1, min(thr, 400)))
+	b.op('A', t, seqOf('a', lo-1, -1, min(thr, 400)))
+	b.emit("big-delete-rebuild", sizeTag(thr), "big-order-"+string(pat))
+}
+
 var scaleBetas = []int{0, 1, 50, 155, 250, 500, 800, 880, 950, 999, 1000}
 
 func genScale(g *tr.G) {
@@ -681,6 +720,22 @@ func genScale(g *tr.G) {
 			}
 		}
 	}
+	// the delete-side rebuild leaving 2^k-2 .. 2^k+1 keys: every scale in the thorough tier, one small
+	// and one big scale per balance factor in the quick tier
+	for _, β := range []int{155, 250, 500, 800, 880, 950, 999, 1000} {
+		small, bigk := 5+r.Intn(4), 9+r.Intn(3)
+		for k := 5; k <= 11; k++ {
+			if !g.Thorough() && k != small && k != bigk {
+				continue
+			}
+			one := r.Intn(4)
+			for i, thr := range []int{1<<k - 1, 1 << k, 1<<k + 1, 1<<k + 2} {
+				if g.Thorough() || k == small || i == one {
+					genDeleteRebuild(g, thr, β, tr.Pick(r, []byte{'r', 'r', 'a', 'd', 'z'}))
+				}
+			}
+		}
+	}
 	// every balance factor with the adversarial orders at a big size (the loose ones grow paths of 64
 	// and more levels), smaller where the tree is a vine
 	for _, β := range scaleBetas {
@@ -701,6 +756,6 @@ func genScale(g *tr.G) {
 	}
 	// random large sizes
 	for i := 0; i < g.Scale(1, 30); i++ {
-		genGrowDrain(g, r.Range(1500, 8192), tr.Pick(r, []int{0, 1, 50, 155, 250, 500, 800, 880}), nextPat(), false)
+		genGrowDrain(g, r.Range(1500, g.Scale(5000, 8192)), tr.Pick(r, []int{0, 1, 50, 155, 250, 500, 800, 880}), nextPat(), false)
 	}
 }
